@@ -377,7 +377,7 @@ func (r *Runner) Run() {
 			})
 		}
 		cfg := verifsim.Config{Seed: model.Mix(spec.Seed, uint64(round)), Strategy: spec.Sched.Strategy, Den: spec.Sched.Den, PCTDepth: spec.Sched.PCTDepth,
-			PCTSteps: int64(len(spec.Hist)/rounds) * 400, GCEvery: spec.Sched.GCEvery, Pool: spec.Pool, MaxSteps: 40_000_000}
+			PCTSteps: int64(len(spec.Hist)/rounds) * 400, GCEvery: spec.Sched.GCEvery, Pool: spec.Pool, MaxSteps: 60_000_000}
 		if lo := round * spec.Tasks; lo+spec.Tasks <= len(spec.Sched.StartAt) {
 			cfg.StartAt = spec.Sched.StartAt[lo : lo+spec.Tasks]
 		} else if round == 0 {
@@ -416,7 +416,12 @@ func (r *Runner) Run() {
 		r.stats.viol++
 	}
 	if res.NoProgress != "" {
-		r.J.put(&Rec{K: "V", Prop: "C08", Sig: "C08/no-progress", Msg: res.NoProgress})
+		if spec.Prof == "C05" {
+			// single task, one decode at a time: the operation in flight did not terminate within the step bound
+			r.J.put(&Rec{K: "V", Prop: "C05", Sig: "C05/does-not-terminate", Msg: "DecodeObject did not return within the step bound: " + res.NoProgress + " (the input in flight is the last 'b' record)"})
+		} else {
+			r.J.put(&Rec{K: "V", Prop: "C08", Sig: "C08/no-progress", Msg: res.NoProgress})
+		}
 		r.stats.viol++
 	}
 	end := map[string]interface{}{
